@@ -453,6 +453,32 @@ func (e *Engine) resolveType(pkgPath, text string) (types.Type, error) {
 		}
 		return types.NewSlice(el), nil
 	}
+	if strings.HasPrefix(text, "map[") {
+		depth, end := 0, -1
+		for i := 3; i < len(text); i++ {
+			if text[i] == '[' {
+				depth++
+			} else if text[i] == ']' {
+				depth--
+				if depth == 0 {
+					end = i
+					break
+				}
+			}
+		}
+		if end < 0 {
+			return nil, fmt.Errorf("bad map type %s", text)
+		}
+		kt, err := e.resolveType(pkgPath, text[4:end])
+		if err != nil {
+			return nil, err
+		}
+		vt, err := e.resolveType(pkgPath, text[end+1:])
+		if err != nil {
+			return nil, err
+		}
+		return types.NewMap(kt, vt), nil
+	}
 	if strings.HasPrefix(text, "*") {
 		el, err := e.resolveType(pkgPath, text[1:])
 		if err != nil {
@@ -573,6 +599,20 @@ func (e *Engine) heapComponent(fx *FnExec, pkg, text string) (string, Sort, erro
 		}
 		n, s := fx.pheapName(t)
 		return n, s, nil
+	case (strings.HasPrefix(text, "mapdom(") || strings.HasPrefix(text, "mapval(")) && strings.HasSuffix(text, ")"):
+		t, err := e.resolveType(pkg, text[7:len(text)-1])
+		if err != nil {
+			return "", "", err
+		}
+		mt, ok := t.Underlying().(*types.Map)
+		if !ok {
+			return "", "", fmt.Errorf("not a map type")
+		}
+		dn, vn, ds, vs := fx.mapHeapNames(mt)
+		if strings.HasPrefix(text, "mapdom(") {
+			return dn, ds, nil
+		}
+		return vn, vs, nil
 	case strings.HasPrefix(text, "ghost(") && strings.HasSuffix(text, ")"):
 		sf := e.findSpec(pkg, text[6:len(text)-1])
 		if sf == nil || !sf.Ghost {
